@@ -368,9 +368,8 @@ func init() {
 				panic(err)
 			}
 			t := tabular.New()
-			ts.Build(t)
-			v := extractView(t)
-			o := capture(func() (string, error) { return markdown.Wrap(t).Render() })
+			o := ts.BuildRender(t, func(t tabular.Table) func() (string, error) { w := markdown.Wrap(t); return w.Render })
+			v := ts.SpecView() // judged against what was put in, not what the table now holds
 			vc := mdViewCoq(v)
 			return CaseOut{
 				Coq:        cqPair(cqPair(vc, mdWidthTable(v)), o.Coq()),
